@@ -12,3 +12,4 @@ pub mod sut;
 
 #[global_allocator]
 static GLOBAL: alloc::Counting = alloc::Counting;
+pub mod selftest;
